@@ -39,14 +39,16 @@ func (dec *Decoder) decodeBool(t reflect.Type, tag byte, p *bool) {
 	case TagTrue, TagNaN:
 		*p = true
 	case TagInteger, TagLong, TagDouble:
-		bytes := dec.UnsafeUntil(TagSemicolon)
-		switch len(bytes) {
-		case 0:
-			*p = false
-		case 1:
-			*p = bytes[0] != '0'
-		default:
-			*p = true
+		// true unless the number is zero, however it is spelt (0, 00, -0, 0.0, 0e0)
+		*p = false
+		for _, c := range dec.UnsafeUntil(TagSemicolon) {
+			if c == 'e' || c == 'E' {
+				break
+			}
+			if c >= '1' && c <= '9' {
+				*p = true
+				break
+			}
 		}
 	case TagInfinity:
 		dec.Skip()
